@@ -2,3 +2,7 @@ claim("C12", "proof",
       "Every closed form in tides/love1d.py is proved equal to the statement's formula for all real l>=2 and all positive mu,g,R,rho and passive complex J (rational identity, exact normal form / z3); definedness of every division proved under the precondition; composition lemma gives the end-to-end formula.",
       "doubles treated as reals; numba ≡ CPython on the extracted bodies; agreement with the layered solver is inherited from the C01 Kelvin lemma, not re-proved",
       "sidecar contracts + AST symbolic execution, VCs discharged by exact Q[x] normal form and z3", "DESIGN §5 C12")
+claim("C11", "proof",
+      "The conservation laws of the statement are the postconditions of the real rate functions (single and dual): orbital-energy balance and, at zero obliquity, angular-momentum balance, proved as rational identities modulo Kepler III and sqrt(1-e^2)^2 = 1-e^2 for all states; de/dt = 0 at e = 0; every division proved defined under each path condition (this decided the e = 0 NaN defect); the quick_tides call site is checked modularly against the callee contracts (argument binding, Kepler precondition from orbital_motion2semi_a).",
+      "doubles as reals; heating = Mhost (n dU/dM - Omega dU/dOmega) imported from C10; dU/dw = dU/dOmega at I = 0 imported from C10; the sliver 0 < |n a^2 e| <= 2^-52 is outside the angular-momentum clause; numpy element-wise semantics assumed for array inputs",
+      "sidecar contracts + AST symbolic execution (path split on masks), VCs by exact Q[x] normal form modulo relations, z3", "DESIGN §5 C11")
